@@ -15,6 +15,7 @@ ENGINE = "E2 history explorer + E3 thread-schedule explorer"
 # solo references come from pristine processes, so a history that fails only inside a long-lived worker (which has run other parser
 # objects before) is itself a counter-example to "as if it were the only parser in the process"
 LEAK_IS_VIOLATION = True
+CASE_TIMEOUT_S = 900  # one case is a whole DFS subtree of schedules
 TECHNIQUE = ("exhaustive enumeration of construct/run operation interleavings of 2-3 parser objects, and stateless DFS over all "
              "thread schedules (cooperative baton at lexer-build / parser-build / per-statement points, pre-emption bounded) "
              "of concurrent construct+run on the real code")
@@ -109,7 +110,7 @@ def gen_cases(tier):
     for name, thr in THREADS.items():
         k = len(thr)
         bound = None if (k == 2 and name not in POINTS) else (3 if tier == "thorough" else 2)
-        L = 3
+        L = 5 if (k == 3 and tier == "thorough") else 3
         prefixes = [[]]
         for _ in range(L):
             prefixes = [p + [c] for p in prefixes for c in range(k)]
